@@ -9,6 +9,7 @@
 //	hexbytes                             HEXBytes (bytes <-> JSON hex string, accepted input forms)
 //	iso8601                              ISO8601Time (instant <-> RFC 3339 text, to one second)
 //	payload-structs                      the 20 request/answer payloads and their 11 building blocks, filled reflectively
+//	client-exchange                      payloads through backend.NewClient's synchronous calls (in-process transport)
 //	key-envelope                         NewKeyEnvelope / Unwrap against the RFC 3394 reference model
 //
 // Every oracle is either the round trip the property states or an independent
@@ -1256,6 +1257,10 @@ func TestProp(t *testing.T) {
 	evid.Rapid(r, t, "payload-structs",
 		"each of the 20 request/answer payload structs (weight 2) and their 11 building blocks (weight 1), filled reflectively from a random byte tape of 24..1200 bytes: pointers nil/non-nil, slices nil/empty/1..3 elements, byte strings nil/empty/1..24 bytes, strings with quotes, control characters, HTML characters and non-ASCII, integers at the type bounds, any finite float64, EUI64/DevAddr/NetID arrays, DLSettings inside its documented ranges, ISO8601Time zero or years 1..9999 with offset and sub-second part, Frequency 0..2^32 (band rasters, arbitrary), Percentage 0..100, RawMessage absent or compact valid JSON (nested, big numbers, escapes). Oracle: Unmarshal(Marshal(v)) equals v field by field with nil == empty for slices and byte strings, JSON-semantic equality for RawMessage, instants to one second with equal offset, pointers agreeing in nil-ness (a nil pointer is the only thing the encoder omits, a pointer to a zero value is written and must come back non-nil; non-pointer omitempty members are omitted exactly when they are the zero value the decoder restores); the wire form (member names, omission of unset optional members) is compared with a pinned table only to label classes and count set/unset optional members - it is not asserted, the property states the round trip only. Non-trivial: at least one optional member set and at least one unset in the value tree. A failure names the field path.",
 		50000, 2000000, genStruct, checkStruct)
+
+	evid.Rapid(r, t, "client-exchange",
+		"the seven synchronous client calls (JoinReq, RejoinReq, PRStartReq, PRStopReq, XmitDataReq, ProfileReq, HomeNSReq) of backend.NewClient with the network replaced by an in-process http.RoundTripper: request and answer payloads filled reflectively from tapes of 0..700 bytes as in payload-structs, the answer's Result.Description a text of 0 / 1..600 / 2^k-400..2^k+200 (k = 9..16) / up to 300000 characters, a request byte string of up to 40000 bytes in 1/4 of the cases, TransactionID 0 or set; the answer body is served in reads of 1, 7, 100, 512, 1460, 4096 bytes or in one piece. Oracle: the call succeeds and returns field by field what a plain json.Unmarshal of the served body gives; the body the peer received decodes to the caller's payload with the configured SenderID/ReceiverID, the call's MessageType and the caller's TransactionID when set. Non-trivial: the body needs more than one read.",
+		12000, 300000, genClient, checkClient)
 
 	evid.Rapid(r, t, "key-envelope",
 		"KEK of 16/24/32 random bytes, 16-byte key, label empty (1/6) or not. With label: AESKey == reference RFC 3394 wrap (internal/ref, checked against the RFC vectors), the envelope survives JSON, Unwrap with the KEK gives the key before and after JSON; for each of the 192 single-bit corruptions of the wrapped bytes, for another KEK (any of the three lengths) and for the KEK with one bit flipped, Unwrap succeeds exactly when the reference integrity check passes (and then gives the reference's key). Without label: KEKLabel empty and AESKey == key in clear, surviving JSON. Non-trivial: every labelled case (194 corrupted unwraps each).",
